@@ -34,7 +34,7 @@ func init() {
 			},
 			Kind: "i64", Ret: "Bool", Consts: ft,
 		}))
-		norm := func(pk *xt.Pkg, fd *ast.FuncDecl) string { return strings.Join(strings.Fields(pk.Src(fd.Body)), "") }
+		norm := func(pk *xt.Pkg, fd *ast.FuncDecl) string { return pk.Norm(fd.Body) }
 		act := norm(ok, ok.Func("Keeper", "Activate"))
 		if !strings.Contains(act, "ifstatus.IsActive{returntypes.ErrValidatorAlreadyActive}") {
 			xt.Fail("Activate: already-active guard not recognised")
